@@ -11,7 +11,8 @@ def run(c):
               "inside the writer's Engine.Commit call that follows the shutdown request) with MaxChunkSize 60..1100 (rotation every few events) or, every 12th case "
               "(10th in thorough), 20000..2^20 with 1-70 KB payloads (crc records every 64 KiB, read buffer growth); then "
               "read-only replays of the final files: from 0, from every commit with its meta / without / with an older meta, "
-              "from the deepest commit lying more than 64 KiB inside its chunk (with and without meta), from event boundaries, malformed (wrong engine offset, meta ahead of start, corrupted meta, unaligned start), "
+              "from the deepest commit lying more than 64 KiB inside its chunk (with and without meta), from up to two commits with the meta "
+              "of an OLDER commit of the same chunk, from event boundaries, malformed (wrong engine offset, meta ahead of start, corrupted meta, unaligned start), "
               "truncations of the last file (random, around event boundaries, inside the file header, last bytes), of an inner "
               "file, a deleted last file, single bit flips (biased to bytes in front of a crc record); thorough: half of the "
               "small cases enumerate EVERY truncation offset and EVERY single bit flip of the last two files. "
@@ -73,7 +74,7 @@ META = {
              "rebuilt by wsInit - readAllFromPosition called at the offset of any commit, with that commit's snapshot meta or "
              "WITHOUT meta: directory scan and sort, getBinlogIndexByPosition, seek (checksum verified against the meta or "
              "recomputed), replay of the remaining chunks = ok, exactly the later events, in order, at the offsets Append "
-             "returned; (readAll_from_start) the same from offset 0, LevStart and tag skipped; (readAll_truncated, "
+             "returned; (restart_takes_replay_result) the writer a restart builds with wsInit from the RESULT of that replay satisfies the history invariant again; (readAll_resume_older_meta) the same replay with the meta of an OLDER commit of the same chunk, the seeded seek variant seekBad refuted by a decide witness; (readAll_from_start) the same from offset 0, LevStart and tag skipped; (readAll_truncated, "
              "truncate_tail_files, truncate_prefix) a chunk cut at ANY point behind its ROTATE_FROM header - inside an event, a "
              "crc record or its ROTATE_TO - with all later files removed, read through the whole readAll path: no error, exactly "
              "the complete events, a prefix, never a partial event; the single excluded shape, a cut inside a 36-byte ROTATE_FROM "
@@ -91,9 +92,7 @@ META = {
              "outcomes on the real code."),
     "note": ("Trusted: Lean kernel, the correspondence on generated histories (quick 200, thorough 400 histories incl. ~160 with "
              "every truncation offset and every single-bit flip of the last two chunks), gofs memory fs as the file system, "
-             "crc32/md5 as parameters. Remaining partial points: Sessions.restart takes over position and checksum of the previous "
-             "writer state (what readAll_resume_sessions proves the replay returns) - the composition with the RA record's other "
-             "fields is not a single statement; bit flips are proved in reduction form only (crc_record_checked), no end-to-end "
+             "crc32/md5 as parameters. Remaining partial point: bit flips are proved in reduction form only (crc_record_checked), no end-to-end "
              "readAll statement for a flipped file list. The md5 chain is NOT verified by the Go reader (decide witness). Known "
              "finding truncated-file-header: a last chunk cut inside its 36-byte ROTATE_FROM header (crash inside rotate()) makes "
              "the whole binlog unreadable (scan error; index panic for 1-3 bytes); reproduced by the model (decide witnesses) and "
